@@ -256,6 +256,10 @@ func byBuiltinRule(t *token.Token, runes []rune) bool {
 }
 
 func lexCase(set lexOpSet, src string, gen string) Case {
+	if guardBegin("lex[" + set.name + "] " + strconv.Quote(src)) {
+		return crashCase("lex[" + set.name + "] " + strconv.Quote(src))
+	}
+	defer guardEnd()
 	c := Case{
 		Human:   "lex[" + set.name + "] " + strconv.Quote(src),
 		Req:     sxList("lex", encOps(set.ops), sxStr(src)),
